@@ -177,6 +177,7 @@ func (r *Run) enterBlock(st *State, fr *Frame, to *ssa.BasicBlock) bool {
 			for _, oc := range outer {
 				e.obligationClause(st, fr, fmt.Sprintf("%s/loop:%s/preserve:%s", e.fnName[oc.fr.Fn], oc.cl.Words[0], oc.cl.Label()), oc.cl, r.outerVars(st, oc.fr))
 			}
+			r.checkVariants(st, fr, li)
 			if len(r.lockIfClauses(fr.Fn, li.Ordinal)) == 0 {
 				r.checkLoopLocks(st, fr, li, "preserve")
 			}
@@ -203,6 +204,7 @@ func (r *Run) enterBlock(st *State, fr *Frame, to *ssa.BasicBlock) bool {
 		for _, oc := range outer {
 			st.assume(e.evalClause(st, fr, oc.cl, r.outerVars(st, oc.fr)))
 		}
+		r.recordVariants(st, fr, li)
 		fr.Prev = from
 		fr.Block = to
 		fr.PC = 0
@@ -214,6 +216,62 @@ func (r *Run) enterBlock(st *State, fr *Frame, to *ssa.BasicBlock) bool {
 	fr.Block = to
 	fr.PC = 0
 	return true
+}
+
+// Loop variants: `loop N variant label : expr` — an integer expression that is non-negative whenever the loop goes
+// round again and strictly smaller at every back edge than at the loop head: the loop terminates.
+func (r *Run) variantClauses(fn *ssa.Function, ord int) []*Clause {
+	b := r.e.cs.Funcs[r.e.fnName[fn]]
+	if b == nil {
+		return nil
+	}
+	var out []*Clause
+	for _, c := range b.All("loop") {
+		if len(c.Words) >= 2 && c.Words[0] == fmt.Sprintf("%d", ord) && c.Words[1] == "variant" {
+			out = append(out, c)
+		}
+	}
+	return out
+}
+
+func (r *Run) evalVariant(st *State, fr *Frame, cl *Clause) (T, bool) {
+	e := r.e
+	x, err := parseSpec(cl.Expr)
+	if err != nil {
+		e.fail("%v", err)
+		return T{}, false
+	}
+	c := e.clauseCtx(st, fr, nil)
+	c.inLoop = true
+	return c.intArg(x), true
+}
+
+func (r *Run) recordVariants(st *State, fr *Frame, li *LoopInfo) {
+	if r.ownClausesOff(st, fr) {
+		return
+	}
+	for _, cl := range r.variantClauses(fr.Fn, li.Ordinal) {
+		if v, ok := r.evalVariant(st, fr, cl); ok {
+			st.Ghost[fmt.Sprintf("variant:%s:%d:%s", r.e.fnName[fr.Fn], li.Ordinal, cl.Label())] = v
+		}
+	}
+}
+
+func (r *Run) checkVariants(st *State, fr *Frame, li *LoopInfo) {
+	e := r.e
+	if r.ownClausesOff(st, fr) {
+		return
+	}
+	for _, cl := range r.variantClauses(fr.Fn, li.Ordinal) {
+		v0, ok0 := st.Ghost[fmt.Sprintf("variant:%s:%d:%s", e.fnName[fr.Fn], li.Ordinal, cl.Label())].(T)
+		v1, ok1 := r.evalVariant(st, fr, cl)
+		goal := False
+		if ok0 && ok1 {
+			goal = And(App(SBool, "<", v1, v0), App(SBool, ">=", v1, IntLit(0)))
+		}
+		e.emitWith(st, fmt.Sprintf("%s/loop%d/variant:%s", e.fnName[fr.Fn], li.Ordinal, cl.Label()), "", nil, goal,
+			"termination: "+cl.Expr+" decreases at every back edge and stays >= 0", e.framePos(fr), cl.Props, cl)
+	}
 }
 
 func locksKey(ls []HeldLock) string {
